@@ -143,6 +143,16 @@ def run(env, tier, seed, broken=None):
     add('%s (a) %s (b) c; %s d; %s a;' % (IF, IF, ELSE, ELSE),
         ['[', ['if', ident('a'), ['if', ident('b'), ['expr', ident('c')], ['expr', ident('d')]], ['expr', ident('a')]]])
     add('%s (a) %s (b) %s (c) d; %s a;' % (IF, WHILE, IF, ELSE), None)
+    # declarations: each declarator carries its own initialiser (or none) and its own line, whatever its neighbours
+    # are; statement forms inside every clause that takes a statement or an expression
+    for k in (1, 2, 3, 4):
+        for pat in itertools.product([0, 1, 2], repeat=k):
+            ds = ['v%d' % j if kind == 0 else 'v%d = %d' % (j, j + 10) if kind == 1 else 'v%d = [%d, v0]' % (j, j) for j, kind in enumerate(pat)]
+            add('%s %s;' % (VAR, ', '.join(ds)), None)
+            add('%s (%s %s; v0; v0 = v0 + 1) { }' % (FOR, VAR, ', '.join(ds)), None)
+    for head in ['%s (%s i = 0; i < 2; i = i + 1)' % (FOR, VAR), '%s (i = 0; i; )' % FOR, '%s (; ; )' % FOR, '%s (a)' % WHILE, '%s (a)' % IF, '%s (a) b; %s' % (IF, ELSE)]:
+        for body in ['c;', '{ c; }', '%s c;' % PRINT, '%s;' % BREAK, '%s c;' % RETURN, '%s (d) e;' % IF, '{ }', '{ { c; } d; }', 'c = {k: 1};', '%s (;;) c;' % FOR]:
+            add(head + ' ' + body, None)
     mism, gd, acc = diff_front(env, texts)
     nontriv = set()
     for i, exp in expect.items():
